@@ -297,6 +297,160 @@ def kmer_iter_tables(F, rep, rule="C13.2"):
         run_rows(F, rep, rule, fname, body, mk_args3, check3, "%s starts at pos = K with the k-mer at 0 (when the sequence is long enough)" % fname)
 
 
+def kmer_iter_override_table(F, rep, rule="C13.2"):
+    """Overridden provided methods of the k-mer iterators (fold, for_each, count, last, nth): each must behave as the default built on
+    next().  Differential and representation-independent: the iterator is made by interpreting `iter_kmers` / `iter_kmer_exts` on a small
+    scripted sequence (4 k-mers, K = 3), advanced by interpreting next() a times, and the override is run on that state; what it hands out
+    must be what next() hands out from there."""
+    K, N = 3, 4
+    L = N + K - 1
+
+    class H(Oracles):
+        def __init__(self):
+            Oracles.__init__(self, [])
+            self.items = []
+
+        def on_call(self, it, fn, args, dest_ty, term, caller):
+            path = fn.get("path", "")
+            name = path.split("::")[-1]
+            tr = fn.get("trait", "") or ""
+            if is_print_call(fn):
+                return Opaque(dest_ty, {"fmt"})
+            if name == "k" and tr == "Kmer":
+                return Int(64, False, val=K)
+            if tr == "Kmer" and name == "empty":
+                return Opaque("K", {"kmer"}, {"at": "empty"})
+            if tr in ("Mer", "Vmer") and args and isinstance(recv(it, args[0]), Opaque) and "the-seq" in tags_of(recv(it, args[0])):
+                if name == "len":
+                    return Int(64, False, val=L)
+                if name == "get":
+                    i = args[1].val if isinstance(args[1], Int) and args[1].is_conc() else None
+                    if i is None or i >= L:
+                        raise Diverge("base %r of a sequence of %d bases" % (args[1], L))
+                    return Int(8, False, bits=[TOP] * 8, tags=frozenset({"b:%d" % i}))
+                if name in ("get_kmer", "first_kmer", "last_kmer"):
+                    i = 0 if name == "first_kmer" else (N - 1 if name == "last_kmer" else (args[1].val if isinstance(args[1], Int) and args[1].is_conc() else None))
+                    if i is None or i >= N:
+                        raise Diverge("k-mer %r of a sequence of %d k-mers" % (args[1] if len(args) > 1 else name, N))
+                    return Opaque("K", {"kmer"}, {"at": i})
+            if tr == "Kmer" and name == "extend_right":
+                k = recv(it, args[0])
+                b = [t for t in tags_of(args[1]) if t.startswith("b:")]
+                at = k.info.get("at") if isinstance(k, Opaque) else None
+                if isinstance(at, int) and b and int(b[0][2:]) == at + K:
+                    return Opaque("K", {"kmer"}, {"at": at + 1})
+                return Opaque("K", {"kmer"}, {"at": "extend_right(k-mer %s, base %s)" % (at, b[0][2:] if b else "?")})
+            if path in ("Exts::mk_left", "Exts::mk_right") and len(args) == 1:
+                b = [t for t in tags_of(args[0]) if t.startswith("b:")]
+                return Opaque(EXTS, {"exts"}, {"exts": "%s(%s)" % (name, b[0][2:] if b else "?")})
+            if path == "Exts::merge" and len(args) == 2:
+                a, b = args
+                return Opaque(EXTS, {"exts"}, {"exts": "merge(%s,%s)" % (info_of(a).get("exts"), info_of(b).get("exts"))})
+            if name in ("call", "call_mut", "call_once") and args and isinstance(recv(it, args[0]), Opaque) and "callback" in tags_of(recv(it, args[0])):
+                tup = args[1]
+                vals = list(tup.fields) if isinstance(tup, Tup) else [tup]
+                self.items.append(show(vals[-1]))
+                return Int(64, False, val=len(self.items)) if len(vals) == 2 else Tup([])
+            return NotImplemented
+
+    def show(v):
+        if isinstance(v, Tup):
+            return tuple(show(x) for x in v.fields)
+        if isinstance(v, Opaque) and "at" in v.info:
+            return ("k-mer", v.info["at"])
+        if isinstance(v, Opaque) and "exts" in v.info:
+            return ("exts", v.info["exts"])
+        return repr(v)
+
+    for adt, ctor in (("KmerIter", "Vmer::iter_kmers"), ("KmerExtsIter", "Vmer::iter_kmer_exts")):
+        pre = "<%s<'a, K, D> as std::iter::Iterator>::" % adt
+        over = {k[len(pre):]: b for k, b in F.fns.items() if k.startswith(pre) and "{closure" not in k and "::" not in k[len(pre):]}
+        nxt = over.pop("next", None)
+        over.pop("size_hint", None)
+        cbody = F.fns.get(ctor)
+        if not over:
+            continue
+        if nxt is None or cbody is None:
+            rep.inconclusive(rule, adt + "/overrides", "%s overrides %s; its constructor / next() could not be located" % (adt, sorted(over)))
+            continue
+
+        def fresh(h, a):
+            it = Interp(F, False, h)
+            args = [Ref(Cell(Opaque("D", {"the-seq"}), "seq"))]
+            if adt == "KmerExtsIter":
+                args.append(Opaque(EXTS, {"exts"}, {"exts": "caller"}))
+            cell = Cell(it.call_body(cbody, args), "iter")
+            got = []
+            for _ in range(a):
+                r = it.call_body(nxt, [Ref(cell)])
+                got.append(r)
+            return it, cell, got
+
+        def drain(it, cell):
+            out = []
+            for _ in range(N + 3):
+                r = it.call_body(nxt, [Ref(cell)])
+                if not (isinstance(r, Adt) and r.variant in (0, 1)):
+                    raise Undecided("next() returned %r" % (r,))
+                if r.variant == 0:
+                    return out
+                out.append(show(r.fields[0]))
+            raise Undecided("next() does not end")
+        for m, body in sorted(over.items()):
+            key = "%s::%s" % (adt, m)
+            if m not in ("fold", "for_each", "count", "last", "nth"):
+                rep.inconclusive(rule, key, "%s overrides Iterator::%s; no table relates it to next()" % (adt, m))
+                continue
+            problems, inc = [], []
+            for a in range(0, N + 2):
+                try:
+                    it0, cell0, _ = fresh(H(), a)
+                    want = drain(it0, cell0)
+                except (Undecided, Unsupported, Diverge) as e:
+                    inc.append("reference iteration from cursor %d: %s" % (a, e))
+                    continue
+                for j in (range(0, N + 2) if m == "nth" else (None,)):
+                    h = H()
+                    rep.evaluations += 1
+                    try:
+                        it, cell, _ = fresh(h, a)
+                        me = cell.v
+                        cb = Opaque("F", {"callback"})
+                        args = {"fold": [me, Int(64, False, val=0), cb], "for_each": [me, cb], "count": [me], "last": [me], "nth": [Ref(cell), Int(64, False, val=j or 0)]}[m]
+                        r = it.call_body(body, args)
+                        where = "after %d item(s)" % a
+                        if m in ("fold", "for_each"):
+                            if h.items != want:
+                                problems.append("%s, %s hands out %s; next() from there hands out %s" % (where, m, h.items, want))
+                        elif m == "count":
+                            if not (isinstance(r, Int) and r.is_conc() and r.val == len(want)):
+                                problems.append("%s, count() is %r; %d item(s) remain" % (where, r, len(want)))
+                        elif m == "last":
+                            got = show(r.fields[0]) if isinstance(r, Adt) and r.variant == 1 else (None if isinstance(r, Adt) and r.variant == 0 else repr(r))
+                            if got != (want[-1] if want else None):
+                                problems.append("%s, last() is %s; next() from there ends with %s" % (where, got, want[-1] if want else None))
+                        else:
+                            got = show(r.fields[0]) if isinstance(r, Adt) and r.variant == 1 else (None if isinstance(r, Adt) and r.variant == 0 else repr(r))
+                            exp = want[j] if j < len(want) else None
+                            if got != exp:
+                                problems.append("%s, nth(%d) is %s; the item %d steps on is %s" % (where, j, got, j, exp))
+                            else:
+                                rest = drain(it, cell)
+                                if rest != want[j + 1:]:
+                                    problems.append("%s and nth(%d), the iteration continues with %s instead of %s" % (where, j, rest, want[j + 1:]))
+                    except (Undecided, Unsupported) as e:
+                        inc.append("%s from cursor %d: %s" % (m, a, e))
+                    except Diverge as e:
+                        problems.append("after %d item(s), %s%s panics: %s" % (a, m, "(%d)" % j if j is not None else "", e))
+            if problems:
+                rep.violated(rule, key, "%s overrides Iterator::%s (sequence of %d k-mers, K = %d): %s" % (adt, m, N, K, problems[0]), site=F.site(body, body["line"]),
+                             witness={"kind": "row", "count": len(problems)})
+            elif inc:
+                rep.inconclusive(rule, key, "%s overrides Iterator::%s: %s" % (adt, m, inc[0]))
+            else:
+                rep.holds(rule, key, "the overridden %s agrees with next() from every cursor 0..%d of a %d-k-mer sequence" % (m, N + 1, N))
+
+
 # =========================================================================== C13.4 / C13.5 accessors
 
 def accessor_tables(F, rep, rule="C13.4"):
